@@ -58,6 +58,8 @@ def make_job(rng, seed, nfiles=(2, 4), mode=None, small=True, restart=False, man
     b = cc.bound
     hi = b[-2] + max(0, (b[-1] - b[-2]) // 2)  # stop inside the last window
     start = b[0] + rng.choice([0, 0, 1]) * min(1, b[1] - b[0] - 1)
+    if restart == "backfill" and nw >= 3:
+        start = b[1]          # the first window stays free: a later session fills it in and runs on into recorded periods
     ops = [["open", start + cc.B]]
     pos = start
     ncalls = rng.randint(5, 7) if many_calls else rng.randint(2, 4)
@@ -65,6 +67,8 @@ def make_job(rng, seed, nfiles=(2, 4), mode=None, small=True, restart=False, man
         if pos > hi:
             break
         gap = rng.choice([0, 0, 1, 2, (b[1] - b[0])])
+        if restart == "backfill" and c == 0:
+            gap = 0           # the second period is recorded from its first sample on
         a = min(pos + gap, hi)
         nxt = [x for x in b if x > a]
         ln = rng.choice([1, 2, (nxt[0] - a) if nxt else 1, (nxt[0] - a + 1) if nxt else 2, (nxt[1] - a + 1) if len(nxt) > 1 else 3])
@@ -84,7 +88,18 @@ def make_job(rng, seed, nfiles=(2, 4), mode=None, small=True, restart=False, man
         if a - start > 0 and rng.random() < 0.3:
             ops.append(["past"])          # a refused call in between (the writer object stays in use)
     ops.append(["close"])
-    if restart:
+    if restart == "backfill" and nw >= 3:
+        # a later session starts in the free first period and records forward into the period recorded first: its first
+        # file is fine, the roll-over into the occupied period has to be refused and must leave that file as it is
+        s2 = b[0] + rng.randint(0, max(0, b[1] - b[0] - 1))
+        ops.append(["open", s2 + cc.B])
+        if rng.random() < 0.5:
+            ops.append(["write", 0, b[1] - s2 + rng.choice([1, 2])])          # one call across the boundary
+        else:
+            ops.append(["write", 0, b[1] - s2])                                # up to the boundary, then the next call
+            ops.append(["write", b[1] - s2, rng.choice([1, 2])])
+        ops.append(["close"])
+    elif restart:
         # the recorder is restarted on the same channel with a start index inside a period that is already published,
         # then records a later free period
         j = rng.randint(0, max(0, nw - 3))
